@@ -1,4 +1,6 @@
 import ScenicModel.Lemmas.Frames
+import Mathlib.Algebra.Order.Field.Rat
+import Mathlib.Tactic.Push
 /-!
 # C07 (part 2) — specifiers and operators that compose positions and orientations in a frame
 
@@ -126,13 +128,13 @@ variable [DecidableEq α]
     are unit angles, i.e. genuine `(cos, sin)` pairs; the identities below that do not need this are
     stated for arbitrary non-zero `h`, `rho` -/
 theorem azimuthOf_unit (d : Vec3 α) (h : α) (hh : h * h = d.x * d.x + d.y * d.y) : (azimuthOf d h).Unit := by
-  unfold azimuthOf Ang.Unit
+  rw [azimuthOf_eq]; unfold Ang.Unit
   split_ifs with h0
   · norm_num
   · simp only; field_simp; linear_combination -hh
 
 theorem altitudeOf_unit (d : Vec3 α) (h rho : α) (hr : rho * rho = h * h + d.z * d.z) : (altitudeOf d h rho).Unit := by
-  unfold altitudeOf Ang.Unit
+  rw [altitudeOf_eq]; unfold Ang.Unit
   split_ifs with h0
   · norm_num
   · simp only; field_simp; linear_combination -hr
@@ -145,7 +147,7 @@ theorem beyond_frame (pos fromPt : Vec3 α) (h rho : α) (hh : h ≠ 0) (hrho : 
     let r := euler (azimuthOf d h) (altitudeOf d h rho) Ang.zero
     (r.mulVec Vec3.ey).smul rho = d ∧ r.mulVec Vec3.ex = ⟨d.y / h, -d.x / h, 0⟩ := by
   intro d r
-  simp only [r, azimuthOf, altitudeOf, if_neg hh, if_neg hrho]
+  simp only [r, azimuthOf_eq, altitudeOf_eq, if_neg hh, if_neg hrho]
   constructor
   · ext <;> unfold_frames <;> field_simp <;> ring
   · ext <;> unfold_frames <;> ring
@@ -160,13 +162,17 @@ theorem beyond_local (pos off fromPt : Vec3 α) (h rho : α)
     (isRot_euler (azimuthOf_unit _ _ hw) (altitudeOf_unit _ _ _ hr) Ang.Unit.zero) off
 
 omit [DecidableEq α] in
-/-- `beyond … from P`: **which orientation is inherited**. If the `OrientedPoint` test is made while
-    `P` still is the oriented point (`inherits = true`) the new object's `parentOrientation` is `P`'s
-    orientation, and the global one for a plain vector, as the reference says; if the test comes
-    after `P` was coerced to a vector (`inherits = false`) the orientation of `P` is dropped. -/
-theorem beyond_parent_inherited (o : Mat3 α) :
-    beyondParent true (some o) = o ∧ beyondParent true (none : Option (Mat3 α)) = Mat3.one ∧
-    beyondParent false (some o) = Mat3.one := ⟨rfl, rfl, rfl⟩
+/-- `beyond … from P`: **which orientation is inherited**: the new object's `parentOrientation` is
+    `P`'s orientation when `P` is an `OrientedPoint` / `Object` (so, with the default yaw = pitch = roll = 0,
+    its orientation *is* `P`'s), and the global one for a plain vector, as the reference says. -/
+theorem beyond_parent_inherited (pos : Vec3 α) (o : Mat3 α) :
+    beyondParent (some o) = o ∧ beyondParent (none : Option (Mat3 α)) = Mat3.one ∧
+    (OPoint.mk pos (beyondParent (some o)) Ang.zero Ang.zero Ang.zero).orientation = o :=
+  ⟨rfl, rfl, inherited_orientation pos o⟩
+example : beyondParent (some (rotZ (⟨0, 1⟩ : Ang Rat))) ≠ Mat3.one := by
+  intro e
+  have := congrArg (fun m => m.r0.x) e
+  simp [beyondParent, Mat3.one, rotZ] at this
 
 /-! ## `facing toward / away from`, `facing directly toward / away from` -/
 
@@ -183,7 +189,7 @@ theorem facing_toward (away : Bool) (p : Mat3 α) (hp : p.IsRot) (position targe
   have hrec : p.mulVec dir = (if away then position.sub target else target.sub position) :=
     hp.mulVec_transpose_mulVec _
   have hdir : ((euler (azimuthOf dir h) Ang.zero Ang.zero).mulVec Vec3.ey).smul h = ⟨dir.x, dir.y, 0⟩ := by
-    simp only [azimuthOf, if_neg hh]
+    simp only [azimuthOf_eq, if_neg hh]
     ext <;> unfold_frames <;> field_simp <;> ring
   rw [← hrec]
   simp only [o, Mat3.mulVec_mul, ← Mat3.mulVec_smul, ← Mat3.mulVec_add, hdir]
@@ -201,7 +207,7 @@ theorem facing_directly_toward (away : Bool) (p : Mat3 α) (hp : p.IsRot) (posit
   have hrec : p.mulVec dir = (if away then position.sub target else target.sub position) :=
     hp.mulVec_transpose_mulVec _
   have hdir : ((euler (azimuthOf dir h) (altitudeOf dir h rho) Ang.zero).mulVec Vec3.ey).smul rho = dir := by
-    simp only [azimuthOf, altitudeOf, if_neg hh, if_neg hrho]
+    simp only [azimuthOf_eq, altitudeOf_eq, if_neg hh, if_neg hrho]
     ext <;> unfold_frames <;> field_simp <;> ring
   rw [← hrec]
   simp only [o, Mat3.mulVec_mul, ← Mat3.mulVec_smul, hdir]
@@ -230,6 +236,42 @@ theorem following_step (f : Vec3 α → Mat3 α) (s : α) (n : Nat) (p : Vec3 α
     followSteps f s (n + 1) p = followSteps f s n (p.add (((f p).mulVec Vec3.ey).smul s)) := by
   rw [followSteps]; congr 1; frames_ring
 
+/-- with the step the code uses (`dist / n` for `n ≠ 0` steps) the walk through a uniform field covers
+    exactly the requested distance: `following F from P for D` is `P + D · forward` -/
+theorem following_uniform_total (m : Mat3 α) (dist : α) (n : Nat) (hn : (n : α) ≠ 0) (p : Vec3 α) :
+    following (fun _ => m) (dist / (n : α)) n p = (p.add ((m.mulVec Vec3.ey).smul dist), m) := by
+  rw [following_uniform]; congr 2; field_simp
+
 end follow
+
+/-- **the step rule of `followFrom`** (formula regenerated from the source): the number of steps `n` is at
+    least `minSteps`; no step (`dist / n`) is longer than the step size; and `n` is the least such number
+    (one step fewer would make the steps too long). -/
+theorem follow_step_rule (ms : Nat) (dist ss : Rat) (hss : 0 < ss) :
+    let n := followNumSteps ms dist ss
+    ms ≤ n ∧ dist ≤ (n : Rat) * ss ∧ (ms < n → ((n : Rat) - 1) * ss < dist) := by
+  intro n
+  have hn : n = max ms (Rat.ceil (dist / ss)).toNat := rfl
+  refine ⟨by omega, ?_, ?_⟩
+  · have h1 : dist / ss ≤ ((Rat.ceil (dist / ss) : Int) : Rat) := Rat.le_ceil
+    have h2 : (Rat.ceil (dist / ss) : Int) ≤ ((Rat.ceil (dist / ss)).toNat : Int) := Int.self_le_toNat _
+    have h3 : ((Rat.ceil (dist / ss)).toNat : Int) ≤ (n : Int) := by omega
+    have h4 : dist / ss ≤ (n : Rat) := by
+      calc dist / ss ≤ ((Rat.ceil (dist / ss) : Int) : Rat) := h1
+        _ ≤ ((n : Int) : Rat) := by exact_mod_cast le_trans h2 h3
+        _ = (n : Rat) := by norm_cast
+    exact (div_le_iff₀ hss).mp h4
+  · intro hlt
+    have hmax : n = (Rat.ceil (dist / ss)).toNat := by omega
+    have hc : ((Rat.ceil (dist / ss)).toNat : Int) = Rat.ceil (dist / ss) := Int.toNat_of_nonneg (by
+      by_contra hneg; push Not at hneg
+      have : (Rat.ceil (dist / ss)).toNat = 0 := Int.toNat_of_nonpos (le_of_lt hneg)
+      omega)
+    have h5 : ((Rat.ceil (dist / ss) : Int) : Rat) < dist / ss + 1 := Rat.ceil_lt
+    have h6 : (n : Rat) = ((Rat.ceil (dist / ss) : Int) : Rat) := by
+      rw [← hc, hmax]; norm_cast
+    have h7 : (n : Rat) - 1 < dist / ss := by rw [h6]; linarith
+    exact (lt_div_iff₀ hss).mp h7
+example : followNumSteps 4 (21/2) 5 = 4 ∧ followNumSteps 1 (21/2) 5 = 3 ∧ followNumSteps 2 25 (5/2) = 10 := by decide +kernel
 
 end Scenic.C07
